@@ -474,17 +474,12 @@ theorem transposed_spec (A : Mat R) (i j : Nat) :
     ∧ (transposed A).rows = A.cols ∧ (transposed A).cols = A.rows
     ∧ (transposedDyn A).e i j = (transposed A).e i j
     ∧ (transposedDyn A).rows = A.cols ∧ (transposedDyn A).cols = A.rows := by
-  have h := trans_nest A.rows A.cols (fun o n => A.e o n) (zeroMat A.cols A.rows) i j
-  have hs := trans_shape A.rows A.cols (fun o n => A.e o n) (zeroMat A.cols A.rows)
-  have e : (transposed A).e i j = (if i < A.cols ∧ j < A.rows then A.e j i else 0) := by
-    simpa [transposed, transSem, Gen.tsig_fm, bound, sel, zeroMat] using h
-  have e' : (transposedDyn A).e i j = (if i < A.cols ∧ j < A.rows then A.e j i else 0) := by
-    simpa [transposedDyn, transSem, Gen.tsig_dyn, bound, sel, zeroMat] using h
-  refine ⟨e, ?_, ?_, e'.trans e.symm, ?_, ?_⟩
-  · simpa [transposed, transSem, Gen.tsig_fm, bound, sel, zeroMat] using hs.1
-  · simpa [transposed, transSem, Gen.tsig_fm, bound, sel, zeroMat] using hs.2
-  · simpa [transposedDyn, transSem, Gen.tsig_dyn, bound, sel, zeroMat] using hs.1
-  · simpa [transposedDyn, transSem, Gen.tsig_dyn, bound, sel, zeroMat] using hs.2
+  -- the generated tables are one of the two correct ways to write the nest (rows in the outer or in the inner loop)
+  have hfm : Gen.tsig_fm = TransSig.rowsOuter ∨ Gen.tsig_fm = TransSig.colsOuter := by decide
+  have hdyn : Gen.tsig_dyn = TransSig.rowsOuter ∨ Gen.tsig_dyn = TransSig.colsOuter := by decide
+  have h1 := transSem_spec Gen.tsig_fm hfm A (zeroMat A.cols A.rows) i j
+  have h2 := transSem_spec Gen.tsig_dyn hdyn A (zeroMat A.cols A.rows) i j
+  exact ⟨h1.1, h1.2.1, h1.2.2, h2.1.trans h1.1.symm, h2.2.1, h2.2.2⟩
 
 /-- transposing twice gives the matrix back -/
 theorem transposed_involutive (A : Mat R) (i j : Nat) (hi : i < A.rows) (hj : j < A.cols) :
